@@ -6,7 +6,8 @@
 //!                 transparent proxy + all syllable sub-ranges):  strat:key:phrases;...   (see `enc_table`)
 //!   k-paths       ChewingEngine::verif_k_paths (hook): the picks of find_k_paths, `-` for the simple engine
 //!   result        `ok <n> <alt> ...` (first CAP alternatives, in order) or `panic:<class>`
-//! oracle: the C03 / C04 statements evaluated directly on the real output (streams `valid*` only).
+//! oracle: the C03 / C04 statements evaluated directly on the real output (streams `valid*`: everything;
+//! stream `noword`: liveness, tiling, verbatim non-syllables and the exact text shape with the fallback spelling).
 use chewing::conversion::{
     ChewingEngine, Composition, ConversionEngine, FuzzyChewingEngine, Gap, Interval, SimpleEngine,
     Symbol,
@@ -21,7 +22,7 @@ use chewing::editor::{
 };
 use chewing::zhuyin::{Syllable, SyllableSlice};
 use std::cell::RefCell;
-use std::collections::BTreeMap;
+use std::collections::{BTreeMap, BTreeSet};
 use std::panic::{catch_unwind, AssertUnwindSafe};
 use std::path::Path;
 use vharness::*;
@@ -554,6 +555,106 @@ fn check_alternative(dict: &dyn Dictionary, strat: LookupStrategy, comp: &Compos
     }
 }
 
+/// the engine sees no word at all for this syllable (`HasWord` fails at it)
+fn wordless(dict: &dyn Dictionary, eng: Eng, s: Syllable) -> bool {
+    match eng {
+        Eng::Simple => dict.lookup_first_phrase(&[s].as_slice(), LookupStrategy::Standard).is_none(),
+        _ => dict.lookup_all_phrases(&[s].as_slice(), eng.strat()).is_empty(),
+    }
+}
+
+/// the exact text shape for *every* dictionary (`ProvS` / `SpelledText` of Props/C03.lean): `text` over
+/// `[s, e)` is a concatenation — across Glue gaps only, and never for the simple engine — of pieces, each an
+/// exact-range selection, a dictionary phrase for exactly the covered syllables, or the fallback: one
+/// word-less syllable that no selection covers, shown as exactly its spelling (`Syllable::to_string()`)
+fn shape_ok(dict: &dyn Dictionary, eng: Eng, comp: &Composition, s: usize, e: usize, text: &[char]) -> bool {
+    let candidates = |a: usize, b: usize| -> Vec<Vec<char>> {
+        let mut c: Vec<Vec<char>> = comp.selections().iter().filter(|x| x.start == a && x.end == b).map(|x| x.str.chars().collect()).collect();
+        if let Some(key) = all_syllables(comp, a, b) {
+            match eng {
+                Eng::Simple => {
+                    if b == a + 1 {
+                        if let Some(p) = dict.lookup_first_phrase(&key.as_slice(), LookupStrategy::Standard) {
+                            c.push(p.as_str().chars().collect());
+                        }
+                    }
+                }
+                _ => c.extend(dict.lookup_all_phrases(&key.as_slice(), eng.strat()).iter().map(|p| p.as_str().chars().collect::<Vec<char>>())),
+            }
+            if b == a + 1 && wordless(dict, eng, key[0]) && !comp.selections().iter().any(|x| x.start < b && a < x.end) {
+                c.push(key[0].to_string().chars().collect());
+            }
+        }
+        c
+    };
+    // reach[m - s] = the text offsets at which `[s, m)` is explained
+    let mut reach: Vec<BTreeSet<usize>> = vec![BTreeSet::new(); e - s + 1];
+    reach[0].insert(0);
+    for m in s + 1..=e {
+        for a in s..m {
+            if reach[a - s].is_empty() || !(a == s || (eng != Eng::Simple && comp.gap(a) == Some(Gap::Glue))) {
+                continue;
+            }
+            let cands = candidates(a, m);
+            let offs: Vec<usize> = reach[a - s].iter().copied().collect();
+            for off in offs {
+                for c in &cands {
+                    if text[off..].starts_with(c) {
+                        reach[m - s].insert(off + c.len());
+                    }
+                }
+            }
+        }
+    }
+    reach[e - s].contains(&text.len())
+}
+
+/// what C03 / C04 claim for every dictionary (`Holds.live` / `Holds.tiling` of Props/C03.lean), evaluated on
+/// a composition with a word-less syllable: tiling, verbatim non-syllables, the exact text shape, selections
+/// kept whole, breaks not spanned
+fn check_alternative_any_dict(dict: &dyn Dictionary, eng: Eng, comp: &Composition, alt: &[Interval], v: &mut Verdict, k: usize) {
+    let len = comp.len();
+    let mut pos = 0;
+    let mut tiled = true;
+    for iv in alt {
+        if iv.start != pos || iv.end <= iv.start {
+            tiled = false;
+            break;
+        }
+        pos = iv.end;
+    }
+    if !tiled || pos != len {
+        v.c03.push(format!("alt#{} does not tile 0..{}", k, len));
+    }
+    for iv in alt {
+        let chars: Vec<char> = iv.str.chars().collect();
+        if iv.is_phrase {
+            if iv.end > iv.start && iv.end <= len && !shape_ok(dict, eng, comp, iv.start, iv.end, &chars) {
+                v.c03.push(format!("alt#{} interval {}..{} text {} is not made of dictionary phrases for the covered syllables, selections and spellings of word-less unselected syllables", k, iv.start, iv.end, iv.str));
+            }
+        } else if !(iv.end == iv.start + 1 && comp.symbol(iv.start).and_then(|s| s.to_char()).map(|c| c.to_string()) == Some(iv.str.to_string())) {
+            v.c03.push(format!("alt#{} non-phrase interval {}..{} is not the character symbol at its position", k, iv.start, iv.end));
+        }
+    }
+    for (i, s) in comp.symbols().iter().enumerate() {
+        if let Symbol::Char(c) = s {
+            if !alt.iter().any(|iv| iv.start == i && iv.end == i + 1 && !iv.is_phrase && iv.str.chars().eq(std::iter::once(*c))) {
+                v.c03.push(format!("alt#{} character symbol {:?} at {} has no verbatim interval of its own", k, c, i));
+            }
+        }
+    }
+    for sel in comp.selections() {
+        if !alt.iter().any(|iv| iv.start <= sel.start && sel.end <= iv.end) {
+            v.c04.push(format!("alt#{} selection {}..{} {} is split over several intervals", k, sel.start, sel.end, sel.str));
+        }
+    }
+    for i in 0..len {
+        if comp.gap(i) == Some(Gap::Break) && alt.iter().any(|iv| iv.start < i && i < iv.end) {
+            v.c04.push(format!("alt#{} an interval spans the break at {}", k, i));
+        }
+    }
+}
+
 // ---------------------------------------------------------------- driver
 
 #[derive(Clone, Copy, PartialEq)]
@@ -759,8 +860,12 @@ fn run_case(out: &mut Out, st: &mut Stats, stream: &str, eng: Eng, gd: &GenDict,
         Some(c) => c,
         None => return,
     };
-    // ---- the oracle: only inputs inside the quantifier of C03 (valid composition, a word per syllable,
-    //      a well-formed dictionary)
+    // ---- the oracle.  Stream `valid`: inside the quantifier of the one-character clause (valid composition,
+    //      a word per syllable, a well-formed dictionary): everything.  Stream `noword` (a syllable without a
+    //      word, or an ill-formed phrase): what C03 claims for *every* dictionary — a result (no panic), the
+    //      tiling, verbatim non-syllables, the exact text shape (one character per symbol except fallback
+    //      intervals = exactly the spelling), selections kept whole, breaks not spanned.
+    let any_dict = stream == "noword";
     let mut v = Verdict { c03: vec![], c04: vec![] };
     match &result {
         Err(_) => v.c03.push(format!("conversion panics ({})", LAST_PANIC.with(|m| m.borrow().clone()))),
@@ -769,7 +874,20 @@ fn run_case(out: &mut Out, st: &mut Stats, stream: &str, eng: Eng, gd: &GenDict,
                 v.c03.push("no alternative returned".into());
             }
             for (k, a) in alts.iter().enumerate() {
-                check_alternative(gd.dict.as_ref(), eng.strat(), comp, a, &mut v, k);
+                if any_dict {
+                    check_alternative_any_dict(gd.dict.as_ref(), eng, comp, a, &mut v, k);
+                } else {
+                    check_alternative(gd.dict.as_ref(), eng.strat(), comp, a, &mut v, k);
+                }
+            }
+            if any_dict {
+                st.inc("noword.oracle_evaluated");
+                if alts.iter().any(|a| a.iter().any(|iv| iv.str.chars().count() != iv.end - iv.start)) {
+                    st.inc(&format!("noword.spelling_shown.{}", eng.name()));
+                }
+                if alts.iter().any(|a| a.iter().any(|iv| iv.end > iv.start + 1 && iv.str.chars().count() != iv.end - iv.start)) {
+                    st.inc("noword.spelling_glued");
+                }
             }
         }
     }
@@ -1006,11 +1124,14 @@ fn main() {
                 //  valid      inside the quantifier and the theorems' hypotheses: any failure is new
                 //  invalidsel the composition holds a selection no engine can honour (F31: push_selection
                 //             accepts it, replace() keeps one over a replaced symbol): failures are known
-                //  noword     a syllable without a word (outside the quantifier; F02 panic / F30 spelling)
+                //  noword     a syllable without a word (outside the quantifier of the one-character clause only:
+                //             every engine shows its spelling, F30) or an ill-formed phrase: the oracle evaluates
+                //             what C03 claims for every dictionary; any failure (a panic included) is new
                 //  bigfreq    frequencies near i32::MAX (score arithmetic may overflow: outside FreqBound)
                 let (stream, class) = match (cv, hw && wf, kind == 3) {
                     (false, _, _) => ("invalidsel", Some("F31-invalid-selection")),
-                    (true, false, _) => ("noword", None),
+                    (true, false, true) => ("noword", None), // … with frequencies outside ScoreBound
+                    (true, false, false) => ("noword", Some("new")),
                     (true, true, true) => ("bigfreq", None),
                     (true, true, false) => ("valid", Some("new")),
                 };
